@@ -64,6 +64,25 @@ LongLinearCases ==
    /\ P(CaseRec("long", "Gemm", <<>>, <<pair, wide, bias>>, SemGemm(pair, wide, bias, <<>>), <<"value", "long">>))
    /\ P(CaseRec("long", "Gemm", <<AI("transA", 1)>>, <<T("f32", <<1, n>>, col.data), row>>, SemGemm(T("f32", <<1, n>>, col.data), row, Nil, <<AI("transA", 1)>>), <<"value", "long">>))
 
+\* tiling law (Outcome.tla): rows of the left operand are independent; the harness repeats them beyond a million elements
+TileEmit(op, attrs, ins, a, S, Sem(_)) ==
+   TileLaw(Sem, ins, S) => P(CaseRec("tile", op, attrs, ins, a, <<"value", "tile_law">>) @@ [tile |-> TileField(S)])
+TileLinearCases ==
+   LET A == T("f32", <<3, 2>>, <<1, -2, 3, 0, -1, 2>>) B == T("f32", <<2, 2>>, <<2, 1, -1, 3>>) v == T("f32", <<2>>, <<3, -2>>)
+       A3 == T("f32", <<3, 2, 2>>, [k \in 1..12 |-> (k % 5) - 2]) Cr == T("f32", <<2>>, <<10, 20>>) Cf == T("f32", <<3, 2>>, <<1, 2, 3, 4, 5, 6>>)
+       lr == <<AFs("coefficients", <<1, -2, 3, 0>>), AFs("intercepts", <<5, -5>>), AI("targets", 2)>>
+       sc == <<AFs("offset", <<1, -1>>), AFs("scale", <<2, 3>>)>> IN
+   /\ TileEmit("MatMul", <<>>, <<A, B>>, SemMatMul(A, B), {1}, LAMBDA ins : SemMatMul(ins[1], ins[2]))
+   /\ TileEmit("MatMul", <<>>, <<A, v>>, SemMatMul(A, v), {1}, LAMBDA ins : SemMatMul(ins[1], ins[2]))
+   /\ TileEmit("MatMul", <<>>, <<A3, B>>, SemMatMul(A3, B), {1}, LAMBDA ins : SemMatMul(ins[1], ins[2]))
+   /\ TileEmit("MatMul", <<>>, <<A3, A3>>, SemMatMul(A3, A3), {1, 2}, LAMBDA ins : SemMatMul(ins[1], ins[2]))
+   /\ \A attrs \in {<<>>, <<AF("alpha", Fin(2)), AF("beta", Fin(-1))>>, <<AI("transB", 1)>>} :
+         /\ TileEmit("Gemm", attrs, <<A, B>>, SemGemm(A, B, Nil, attrs), {1}, LAMBDA ins : SemGemm(ins[1], ins[2], Nil, attrs))
+         /\ TileEmit("Gemm", attrs, <<A, B, Cr>>, SemGemm(A, B, Cr, attrs), {1}, LAMBDA ins : SemGemm(ins[1], ins[2], ins[3], attrs))
+         /\ TileEmit("Gemm", attrs, <<A, B, Cf>>, SemGemm(A, B, Cf, attrs), {1, 3}, LAMBDA ins : SemGemm(ins[1], ins[2], ins[3], attrs))
+   /\ TileEmit("LinearRegressor", lr, <<A>>, SemLinearRegressor(A, lr), {1}, LAMBDA ins : SemLinearRegressor(ins[1], lr))
+   /\ TileEmit("Scaler", sc, <<A>>, SemScaler(A, sc), {1}, LAMBDA ins : SemScaler(ins[1], sc))
+
 \* LinearRegressor: coefficients are distinct small integers
 LRCase(N, F, Tg, ik, dt) ==
    LET X == Iota(dt, <<N, F>>, 0)
@@ -107,7 +126,7 @@ Emit ==
                     /\ \A dt \in {"f64", "i32", "i64", "u32", "u64"}, ck \in {"absent", "N", "MN"} :
                           P(GemmCase(st.tA, st.tB, <<Fin(2), Fin(-1)>>, ck, 2, 3, 2, dt, FALSE)) /\ P(GemmCase(st.tA, st.tB, <<Fin(1), Fin(1)>>, ck, 2, 3, 2, dt, TRUE))
                     /\ P(GemmBadInner("f32")))
-              /\ (st.M = 1 /\ st.K = 1 /\ st.N = 1 /\ ~st.tA /\ ~st.tB => GemmMagCases /\ LongLinearCases)
+              /\ (st.M = 1 /\ st.K = 1 /\ st.N = 1 /\ ~st.tA /\ ~st.tB => GemmMagCases /\ LongLinearCases /\ TileLinearCases)
         [] st.fam = "linreg" ->
               /\ \A ik \in {"absent", "one", "targets", "bad"} : P(LRCase(st.N, st.F, st.Tg, ik, "f32"))
               /\ (st.N = 2 /\ st.F = 2 => \A dt \in {"f64", "i32", "i64"} : P(LRCase(2, 2, st.Tg, "targets", dt)))
